@@ -221,19 +221,14 @@ class BigMapType(MapType, prim='big_map', args_len=2):
     def update(self, key: MichelsonType, val: Optional[MichelsonType]) -> Tuple[Optional[MichelsonType], MichelsonType]:
         removed_keys = set(self.removed_keys)
         prev_val = self.get(key, dup=False)
-        if prev_val is not None:
-            if val is not None:
-                items = [(k, v if k != key else val) for k, v in self]
-            else:  # remove
-                items = [(k, v) for k, v in self if k != key]
-                removed_keys.add(key)
-        else:
-            if val is not None:
-                items = sorted(self.items + [(key, val)], key=lambda x: x[0])
-                if key in removed_keys:
-                    removed_keys.remove(key)
-            else:  # do nothing
-                items = self.items  # type: ignore
+        # NOTE: Rebuild from the local entries only (iterating `self` also yields the removed keys),
+        # the key itself may be absent from them when its current value comes from the context
+        items = [(k, v) for k, v in self.items if k != key]
+        if val is not None:
+            items = sorted(items + [(key, val)], key=lambda x: x[0])
+            removed_keys.discard(key)
+        elif prev_val is not None:  # remove
+            removed_keys.add(key)
         res = type(self)(items=items, ptr=self.ptr, removed_keys=list(removed_keys))  # type: ignore
         res.context = self.context
         return prev_val, res
